@@ -326,10 +326,16 @@ static void Array_Rem(var self, var obj) {
 
 static void Array_Push(var self, var obj) {
   struct Array* a = self;
+  
+  /* Make room, but count the element only once the assignment has
+  ** succeeded: it raises for a NULL or wrongly typed object */
   a->nitems++;
   Array_Reserve_More(a);
-  Array_Alloc(a, a->nitems-1);
-  assign(Array_Item(a, a->nitems-1), obj);
+  a->nitems--;
+  
+  Array_Alloc(a, a->nitems);
+  assign(Array_Item(a, a->nitems), obj);
+  a->nitems++;
 }
 
 static void Array_Push_At(var self, var obj, var key) {
@@ -346,15 +352,27 @@ static void Array_Push_At(var self, var obj, var key) {
   }
 #endif
   
-  a->nitems++;
-  Array_Reserve_More(a);
+  /* Construct the element at the end, where a failed assignment (NULL or
+  ** wrongly typed object) disturbs nothing, then rotate it into place */
+  Array_Push(self, obj);
   
-  memmove((char*)a->data + Array_Step(a) * (i+1),
-          (char*)a->data + Array_Step(a) * (i+0), 
-          Array_Step(a) * ((a->nitems-1) - i));
+  if (i < (int64_t)a->nitems-1) {
+    char* last = (char*)a->data + Array_Step(a) * (a->nitems-1);
+    char* item = (char*)a->data + Array_Step(a) * i;
+    char* temp = malloc(Array_Step(a));
+    
+#if CELLO_MEMORY_CHECK == 1
+    if (temp is NULL) {
+      throw(OutOfMemoryError, "Cannot grow Array, out of memory!");
+    }
+#endif
+    
+    memcpy(temp, last, Array_Step(a));
+    memmove(item + Array_Step(a), item, last - item);
+    memcpy(item, temp, Array_Step(a));
+    free(temp);
+  }
   
-  Array_Alloc(self, i);
-  assign(Array_Item(a, i), obj);
 }
 
 static void Array_Pop(var self) {
